@@ -290,6 +290,69 @@ def check_extend(violations, stats, rng, n_random):
             theory.thy = old
 
 
+def check_expansion(violations, stats):
+    """Placeholders inside a macro EXPANSION (depth reached only through Macro.expand): a level-1 macro
+    whose proof term contains a sorry is used at top level and inside a block, with and without report."""
+    from kernel import theory
+    from kernel.macro import Macro
+    from kernel.proofterm import ProofTerm
+    from kernel.report import ProofReport
+    from kernel.term import Term, Implies
+    from kernel.thm import Thm
+    from kernel.proof import Proof
+    A, B = atoms()
+    if 'verif_sorry_macro' not in theory.global_macros:
+        class verif_sorry_macro(Macro):
+            def __init__(self):
+                self.level = 1
+                self.sig = Term
+                self.limit = None
+
+            def get_proof_term(self, args, pts):
+                return ProofTerm.sorry(Thm(args))
+        theory.global_macros['verif_sorry_macro'] = verif_sorry_macro()
+    from kernel.term import false
+    shapes = []
+    p = Proof()
+    p.items = [mk_item(0, 'verif_sorry_macro', args=false, th=Thm(false))]
+    shapes.append(p)
+    p = Proof()
+    p.items = [mk_item(0, 'verif_sorry_macro', args=Implies(A, B))]
+    shapes.append(p)
+    p = Proof()
+    p.items = [mk_item(0, 'subproof', th=Thm(false), sub=[mk_item((0, 0), 'verif_sorry_macro', args=false,
+                                                                    th=Thm(false))])]
+    shapes.append(p)
+    for p in shapes:
+        for with_rpt in (False, True):
+            for compute_only in (False,):     # compute_only=True deliberately skips stated steps
+                q = copy.copy(p)
+                rpt = ProofReport() if with_rpt else None
+                try:
+                    theory.check_proof(q, rpt, no_gaps=True, compute_only=compute_only)
+                    acc = True
+                except Exception:
+                    acc = False
+                stats['evaluations'] += 1
+                if acc:
+                    violations.append({'function': 'kernel.theory.Theory.check_proof', 'clause': 'no-gaps-at-depth',
+                                       'what': 'accepted with no_gaps=True (compute_only=%s) although the macro '
+                                               'expansion contains a placeholder' % compute_only,
+                                       'proof': show(p)})
+        q = copy.copy(p)
+        rpt = ProofReport()
+        try:
+            theory.check_proof(q, rpt, no_gaps=False)
+            stats['evaluations'] += 1
+            if len(rpt.gaps) != 1:
+                violations.append({'function': 'kernel.theory.Theory.check_proof', 'clause': 'gaps==placeholders',
+                                   'what': 'expansion placeholder not reported exactly once: %s' % rpt.gaps,
+                                   'proof': show(p)})
+        except Exception as e:
+            violations.append({'function': 'kernel.theory.Theory.check_proof', 'clause': 'harness-sanity',
+                               'what': 'macro with a gap rejected although gaps are allowed: %r' % e, 'proof': show(p)})
+
+
 def run(tier='quick', seed=0):
     t0 = time.time()
     _setup()
@@ -322,6 +385,7 @@ def run(tier='quick', seed=0):
         if len(samples) < 6:
             samples.append({'mutant': show(q)})
     check_extend(violations, stats, rng, 10 if tier == 'quick' else 80)
+    check_expansion(violations, stats)
     # de-duplicate violations by message
     seen = set()
     uniq = []
